@@ -143,12 +143,24 @@ impl AsyncFileSystem for AsyncOverlayFS {
             }
             .into());
         }
-        self.write_path(path)?.create_dir().await?;
+        let result = self.write_path(path)?.create_dir().await;
+        match &result {
+            Ok(()) => {}
+            // a concurrent create_dir won the race for the upper layer: the deletion marker must not outlive the
+            // directory either way, otherwise the loser sees its own parent as absent (concurrent create_dir_all)
+            Err(err) if matches!(err.kind(), VfsErrorKind::DirectoryExists) => {}
+            Err(_) => return result,
+        }
         let whiteout_path = self.whiteout_path(path)?;
         if whiteout_path.exists().await? {
-            whiteout_path.remove_file().await?;
+            match whiteout_path.remove_file().await {
+                Ok(()) => {}
+                // removed by the concurrent creator in the meantime
+                Err(err) if matches!(err.kind(), VfsErrorKind::FileNotFound) => {}
+                Err(err) => return Err(err),
+            }
         }
-        Ok(())
+        result
     }
 
     async fn open_file(&self, path: &str) -> VfsResult<Box<dyn SeekAndRead + Send + Unpin>> {
